@@ -1,208 +1,17 @@
 import ExaModel.Lemmas.Index
 set_option linter.unusedSimpArgs false
-/-! Injectivity of `index()` on the key (family, path-id, mask, prefix, RD), per class, under the
-    side conditions the sentinel analysis forces; injectivity of the repaired encoding. -/
+/-! Injectivity of `index()` on the key (family, path-id, mask, prefix, RD), and the hash
+    contract, for the three classes. -/
 namespace Exa.Index
 open Exa
 
-/-- The ADD-PATH part of `INET.index`: the stored path bytes, or the sentinel. -/
-def pathTagI : Option Bytes → Bytes
-  | none => disabled
-  | some p => p
-
-theorem index_inet (a : IpNlri) (hk : a.kind = .inet) (hl : a.labels = []) (hr : a.rd = none) :
-    index a = famIndex a.afi a.safi ++ (pathTagI a.path ++ ([a.mask] ++ a.pfx)) := by
-  unfold index
-  rw [hk]
-  simp only [packed, rdBits, hl, hr, optBytes]
-  cases h : a.path <;> simp [pathTagI, optBytes]
-
-theorem pathTagI_split {p q : Option Bytes} {x y : Bytes}
-    (hp : ∀ b, p = some b → b.length = 4) (hq : ∀ b, q = some b → b.length = 4)
-    (hpd : p ≠ some disa) (hqd : q ≠ some disa)
-    (h : pathTagI p ++ x = pathTagI q ++ y) : p = q ∧ x = y := by
-  cases p with
-  | none =>
-    cases q with
-    | none => exact ⟨rfl, List.append_cancel_left h⟩
-    | some b =>
-      exfalso
-      have hb := hq b rfl
-      match b, hb with
-      | [b0, b1, b2, b3], _ =>
-        simp only [pathTagI, disabled, List.cons_append, List.nil_append, List.cons.injEq] at h
-        obtain ⟨h0, h1, h2, h3, _⟩ := h
-        apply hqd; simp [disa, ← h0, ← h1, ← h2, ← h3]
-  | some a =>
-    have ha := hp a rfl
-    cases q with
-    | none =>
-      exfalso
-      match a, ha with
-      | [a0, a1, a2, a3], _ =>
-        simp only [pathTagI, disabled, List.cons_append, List.nil_append, List.cons.injEq] at h
-        obtain ⟨h0, h1, h2, h3, _⟩ := h
-        apply hpd; simp [disa, h0, h1, h2, h3]
-    | some b =>
-      have hb := hq b rfl
-      have := List.append_inj h (by simp [pathTagI, ha, hb])
-      simp only [pathTagI] at this
-      exact ⟨by rw [this.1], this.2⟩
-
-theorem pathTagI_split_small {p q : Option Bytes} {m m' : Nat} {x y : Bytes}
-    (hp : ∀ b, p = some b → b.length = 4) (hq : ∀ b, q = some b → b.length = 4)
-    (hm : m < 98) (hm' : m' < 98)
-    (h : pathTagI p ++ (m :: x) = pathTagI q ++ (m' :: y)) : p = q ∧ m :: x = m' :: y := by
-  cases p with
-  | none =>
-    cases q with
-    | none => exact ⟨rfl, List.append_cancel_left h⟩
-    | some b =>
-      exfalso
-      have hb := hq b rfl
-      match b, hb with
-      | [b0, b1, b2, b3], _ =>
-        simp only [pathTagI, disabled, List.cons_append, List.nil_append, List.cons.injEq] at h
-        omega
-  | some a =>
-    have ha := hp a rfl
-    cases q with
-    | none =>
-      exfalso
-      match a, ha with
-      | [a0, a1, a2, a3], _ =>
-        simp only [pathTagI, disabled, List.cons_append, List.nil_append, List.cons.injEq] at h
-        omega
-    | some b =>
-      have hb := hq b rfl
-      have := List.append_inj h (by simp [pathTagI, ha, hb])
-      simp only [pathTagI] at this
-      exact ⟨by rw [this.1], this.2⟩
-
-theorem key_ext {a b : IpNlri} (h1 : a.afi = b.afi) (h2 : a.safi = b.safi) (h3 : a.path = b.path)
-    (h4 : a.mask = b.mask) (h5 : a.pfx = b.pfx) (h6 : a.rd = b.rd) : key a = key b := by
-  simp [key, h1, h2, h3, h4, h5, h6]
-
-/-- Core: equal indexes give equal keys, away from the two ambiguous path-ids and for equal RD
-    presence. -/
-theorem index_key (a b : IpNlri) (ha : WF a) (hb : WF b) (hk : a.kind = b.kind)
-    (hda : a.path ≠ some disa) (hdb : b.path ≠ some disa)
-    (hna : a.path ≠ some nop) (hnb : b.path ≠ some nop)
-    (hr : a.rd.isSome = b.rd.isSome) (h : index a = index b) : key a = key b := by
-  cases hka : a.kind with
-  | inet =>
-    have hkb : b.kind = .inet := by rw [← hk, hka]
-    have ia := ha.inet hka
-    have ib := hb.inet hkb
-    rw [index_inet a hka ia.1 ia.2, index_inet b hkb ib.1 ib.2] at h
-    obtain ⟨e1, e2, e3⟩ := fam_split ha.afi ha.safi hb.afi hb.safi h
-    obtain ⟨e4, e5⟩ := pathTagI_split ha.path hb.path hda hdb e3
-    simp only [List.cons_append, List.nil_append, List.cons.injEq] at e5
-    exact key_ext e1 e2 e4 e5.1 e5.2 (by rw [ia.2, ib.2])
-  | label =>
-    have hkb : b.kind = .label := by rw [← hk, hka]
-    have ra := ha.label hka
-    have rb := hb.label hkb
-    unfold index at h
-    rw [hka, hkb] at h
-    simp only [List.append_assoc] at h
-    obtain ⟨e1, e2, e3⟩ := fam_split ha.afi ha.safi hb.afi hb.safi h
-    obtain ⟨e4, e5⟩ := pathTag_split ha.path hb.path hda hdb hna hnb e3
-    simp only [List.cons_append, List.nil_append, List.cons.injEq] at e5
-    exact key_ext e1 e2 e4 e5.1 e5.2 (by rw [ra, rb])
-  | vpn =>
-    have hkb : b.kind = .vpn := by rw [← hk, hka]
-    unfold index at h
-    rw [hka, hkb] at h
-    simp only [List.append_assoc] at h
-    obtain ⟨e1, e2, e3⟩ := fam_split ha.afi ha.safi hb.afi hb.safi h
-    obtain ⟨e4, e5⟩ := pathTag_split ha.path hb.path hda hdb hna hnb e3
-    have hl := optBytes_length_eq ha.rd hb.rd hr
-    have e6 := tail_inj hl (by simpa [List.append_assoc] using e5)
-    have hbits : rdBits a = rdBits b := by simp [rdBits, hr]
-    have e7 := optBytes_inj hr e6.2.1
-    exact key_ext e1 e2 e4 (by have := e6.1; omega) e6.2.2 e7
-
-/-- IPv4-sized masks (mask byte below 98): no side condition on the path-ids at all. -/
-theorem index_key_small (a b : IpNlri) (ha : WF a) (hb : WF b) (hk : a.kind = b.kind)
-    (hma : a.mask ≤ 32) (hmb : b.mask ≤ 32)
-    (hr : a.rd.isSome = b.rd.isSome) (h : index a = index b) : key a = key b := by
-  cases hka : a.kind with
-  | inet =>
-    have hkb : b.kind = .inet := by rw [← hk, hka]
-    have ia := ha.inet hka
-    have ib := hb.inet hkb
-    rw [index_inet a hka ia.1 ia.2, index_inet b hkb ib.1 ib.2] at h
-    obtain ⟨e1, e2, e3⟩ := fam_split ha.afi ha.safi hb.afi hb.safi h
-    obtain ⟨e4, e5⟩ := pathTagI_split_small ha.path hb.path (m := a.mask) (m' := b.mask) (by omega) (by omega) (by simpa using e3)
-    simp only [List.cons.injEq] at e5
-    exact key_ext e1 e2 e4 e5.1 e5.2 (by rw [ia.2, ib.2])
-  | label =>
-    have hkb : b.kind = .label := by rw [← hk, hka]
-    have ra := ha.label hka
-    have rb := hb.label hkb
-    unfold index at h
-    rw [hka, hkb] at h
-    simp only [List.append_assoc] at h
-    obtain ⟨e1, e2, e3⟩ := fam_split ha.afi ha.safi hb.afi hb.safi h
-    obtain ⟨e4, e5⟩ := pathTag_split_small ha.path hb.path (m := a.mask) (m' := b.mask) (by omega) (by omega) (by simpa using e3)
-    simp only [List.cons.injEq] at e5
-    exact key_ext e1 e2 e4 e5.1 e5.2 (by rw [ra, rb])
-  | vpn =>
-    have hkb : b.kind = .vpn := by rw [← hk, hka]
-    unfold index at h
-    rw [hka, hkb] at h
-    simp only [List.append_assoc] at h
-    obtain ⟨e1, e2, e3⟩ := fam_split ha.afi ha.safi hb.afi hb.safi h
-    have hbits : rdBits a = rdBits b := by simp [rdBits, hr]
-    have hba : rdBits a ≤ 64 := by unfold rdBits; split <;> omega
-    have hbb : rdBits b ≤ 64 := by unfold rdBits; split <;> omega
-    obtain ⟨e4, e5⟩ := pathTag_split_small ha.path hb.path (m := rdBits a + a.mask) (m' := rdBits b + b.mask)
-      (by omega) (by omega) (by simpa using e3)
-    have hl := optBytes_length_eq ha.rd hb.rd hr
-    have e6 := tail_inj hl (by simpa [List.append_assoc] using e5)
-    have e7 := optBytes_inj hr e6.2.1
-    exact key_ext e1 e2 e4 (by have := e6.1; omega) e6.2.2 e7
-
-theorem tagFix_split {k : Kind} {p q : Option Bytes} {x y : Bytes}
-    (hp : ∀ b, p = some b → b.length = 4) (hq : ∀ b, q = some b → b.length = 4)
-    (h : tagFix k p ++ x = tagFix k q ++ y) : p = q ∧ x = y := by
-  cases p with
-  | none =>
-    cases q with
-    | none => exact ⟨rfl, List.append_cancel_left h⟩
-    | some b =>
-      exfalso
-      simp only [tagFix] at h
-      split at h <;> simp [disabled, nopi, pathWord] at h
-  | some a =>
-    have ha := hp a rfl
-    cases q with
-    | none =>
-      exfalso
-      simp only [tagFix] at h
-      split at h <;> simp [disabled, nopi, pathWord] at h
-    | some b =>
-      have hb := hq b rfl
-      simp only [tagFix] at h
-      split at h <;> split at h
-      · rename_i e1 e2
-        rw [e1.2, e2.2]; exact ⟨rfl, List.append_cancel_left h⟩
-      · exfalso; simp [nopi, pathWord] at h
-      · exfalso; simp [nopi, pathWord] at h
-      · simp only [List.append_assoc] at h
-        have h1 := List.append_cancel_left h
-        have h2 := List.append_inj h1 (by omega)
-        exact ⟨by rw [h2.1], h2.2⟩
-
-/-- The repaired encoding: no side condition (same class on both sides, as for `index`). -/
-theorem indexFix_key (a b : IpNlri) (ha : WF a) (hb : WF b) (hk : a.kind = b.kind)
-    (h : indexFix a = indexFix b) : key a = key b := by
-  unfold indexFix at h
+theorem indexU_key (a b : IpNlri) (ha : WF a) (hb : WF b) (hk : a.kind = b.kind)
+    (h : indexU a = indexU b) : key a = key b := by
+  unfold indexU at h
   simp only [List.append_assoc] at h
   obtain ⟨e1, e2, e3⟩ := fam_split ha.afi ha.safi hb.afi hb.safi h
   rw [hk] at e3
-  obtain ⟨e4, e5⟩ := tagFix_split ha.path hb.path e3
+  obtain ⟨e4, e5⟩ := pathTag_split ha.path hb.path e3
   simp only [List.cons_append, List.nil_append, List.cons.injEq] at e5
   obtain ⟨hm, e6⟩ := e5
   cases hka : a.kind with
@@ -231,9 +40,20 @@ theorem indexFix_key (a b : IpNlri) (ha : WF a) (hb : WF b) (hk : a.kind = b.kin
     have hbits : rdBits a = rdBits b := by simp [rdBits, hr]
     exact key_ext e1 e2 e4 (by omega) e8.2 (optBytes_inj hr e8.1)
 
-/-- For INET the hash key is the index without its (fixed-length) family prefix. -/
-theorem index_inet_hashKey (a : IpNlri) (hk : a.kind = .inet) : index a = famIndex a.afi a.safi ++ hashKey a := by
-  unfold index hashKey
-  rw [hk]
+/-- Equal indexes give equal keys: no side condition. -/
+theorem index_key (a b : IpNlri) (ha : WF a) (hb : WF b) (hk : a.kind = b.kind)
+    (h : index a = index b) : key a = key b := by
+  rw [index_eq_uniform a ha, index_eq_uniform b hb] at h
+  exact indexU_key a b ha hb hk h
+
+/-- For INET the index is the family, the tag word when there is a path-id, and the hash key. -/
+theorem inet_hashKey_of_index (a b : IpNlri) (ha : WF a) (hb : WF b)
+    (ka : a.kind = .inet) (kb : b.kind = .inet) (h : index a = index b) : hashKey a = hashKey b := by
+  have hkey := index_key a b ha hb (by rw [ka, kb]) h
+  simp only [key, Key.mk.injEq] at hkey
+  obtain ⟨_, _, e3, e4, e5, e6⟩ := hkey
+  have ia := ha.inet ka
+  have ib := hb.inet kb
+  simp [hashKey, ka, kb, packed, rdBits, e3, e4, e5, e6, ia.1, ib.1]
 
 end Exa.Index
